@@ -497,6 +497,8 @@ fn high_heights(rep: &mut Report, root: &std::path::Path) {
     } else {
         vec![65_536, 1 << 20, (1 << 20) + (1 << 19) + 5, 5_600_000, 1 << 31, (1 << 32) + 3]
     };
+    // ... and across the powers of ten (a height compared or ordered as TEXT changes its rank where it gains a digit)
+    let bases: Vec<u64> = bases.into_iter().chain([99_998u64, 999_998, 9_999_998, 99_999_998, 9_999_999_998]).collect();
     let wk = Worker::new(root, 970);
     for (bi, &base) in bases.iter().enumerate() {
         let chain = dependent_chain(btc, base, 4);
